@@ -43,6 +43,14 @@ CLAIMED = {
         note="Floats are exact reals (single-precision products / float32 output rounding not modelled); values integers; |r|<=1 only as "
              "corollary. Accessor: DataArray/apply_ufunc contracts. Trusted: pysym, z3 (rewriter normal form + solver).",
         technique="symbolic execution + z3 polynomial identities (sum-of-monomials normal form, monomial abstraction to LRA)", ref="5 C15"),
+    "C16": dict(
+        text="Bounded symbolic verification: do_mean executed on rasters up to 2x3 px x 2 steps with symbolic pixels, zone ids "
+             "(symbolic-index scatter) and nodata values: count and mean per zone equal the definition, NaN exactly for empty "
+             "zones, output dtype as requested. The accumulation dtype is read off the symbolic run and z3's floating-point theory "
+             "decides that one counter step and one sum step are exact for every zone size up to 25 million pixels.",
+        note="int16 pixels; division as uninterpreted quotient compared by numerator/denominator; dask path and accessor "
+             "substitution outside. Trusted: pysym, z3 (LIA/UF, FP).",
+        technique="symbolic execution + z3 LIA/UF; IEEE-754 single-step obligations in z3 FP (exact iff RTP and RTN agree)", ref="5 C16"),
 }
 
 NOT_APPLICABLE = {
